@@ -1,0 +1,60 @@
+//go:build verif
+
+package main
+
+import (
+	"encoding/json"
+	"fmt"
+
+	"github.com/ludo-technologies/pyscn/internal/analyzer"
+)
+
+// det_minhash (reproducibility, C05): the MinHash signatures, LSH band keys, candidate sets and
+// similarity estimates of a family of feature sets - given directly ("sets") and/or taken from the
+// clone fragments of Python sources ("files") - computed "repeat" times, each time with a fresh
+// MinHasher and LSHIndex. The caller compares the repetitions (and the answers of fresh processes).
+func init() {
+	register("det_minhash", func(raw json.RawMessage) (interface{}, error) {
+		var req struct {
+			Sets   [][]string                `json:"sets"`
+			Files  []analyzer.VerifCloneFile `json:"files"`
+			Hashes int                       `json:"hashes"`
+			Bands  int                       `json:"bands"`
+			Rows   int                       `json:"rows"`
+			Repeat int                       `json:"repeat"`
+		}
+		if err := json.Unmarshal(raw, &req); err != nil {
+			return nil, err
+		}
+		ids := []string{}
+		sets := [][]string{}
+		for i, s := range req.Sets {
+			ids = append(ids, fmt.Sprintf("set%04d", i))
+			sets = append(sets, s)
+		}
+		if len(req.Files) > 0 {
+			fids, fsets, err := analyzer.VerifLSHFeatureSets(req.Files, req.Rows)
+			if err != nil {
+				return nil, err
+			}
+			ids = append(ids, fids...)
+			sets = append(sets, fsets...)
+		}
+		counts := make([]int, len(sets))
+		for i, s := range sets {
+			seen := map[string]struct{}{}
+			for _, f := range s {
+				seen[f] = struct{}{}
+			}
+			counts[i] = len(seen)
+		}
+		if req.Repeat < 1 {
+			req.Repeat = 1
+		}
+		outs := []*analyzer.VerifMinHashRun{}
+		for k := 0; k < req.Repeat; k++ {
+			outs = append(outs, analyzer.VerifMinHashOnce(ids, sets, req.Hashes, req.Bands, req.Rows))
+		}
+		return map[string]interface{}{"ids": ids, "counts": counts, "outputs": outs}, nil
+	})
+}
